@@ -161,6 +161,23 @@ def texts(rnd, seed, thorough):
     return out
 
 
+BASE_FORMS = []
+
+
+def whitespace(rnd, thorough):
+    """the documented forms with the blank between two tokens replaced by other white space the grammar skips (a tab, a
+    line break, a comment) or removed: code that looks at the source text of a rule must not depend on how tokens are spaced"""
+    out = []
+    for form in BASE_FORMS:
+        idx = [i for i, c in enumerate(form) if c == " "]
+        for sub in ("\t", "\n", "/* c */", "  ", " // c\n", ""):
+            out.append(form.replace(" ", sub if sub else " ") if sub else form)
+            picks = idx if (thorough or len(idx) <= 6) else rnd.sample(idx, 6)
+            for i in picks:
+                out.append(form[:i] + sub + form[i + 1:])
+    return sorted(set(out))
+
+
 def docs(base):
     os.makedirs(base, exist_ok=True)
     files = {"good.ssl": "x := 5; f := (a: int) -> int { return a + x; }", "syntax.ssl": "x := := 5", "types.ssl": "x := 1 + \"a\"",
@@ -181,7 +198,8 @@ def docs(base):
             progs.append(h.replace("%s", lit))
     progs += ["import", "import 5", "import x", "import \"a\" \"b\"", "import [\"a\"]", "x := \"a\"; import x"]
     # statements.md / operators.md / iterators.md constructs, well- and ill-formed
-    base_forms = [
+    global BASE_FORMS
+    BASE_FORMS = base_forms = [
         "match 5 { 5 => {1} => {0} }", "match 5 { 1, 2, 5 => {1} => {0} }", "match \"a\" { \"a\" => {1} \"b\" => {2} => {0} }", "match 5 { x: int => {x} => {0} }",
         "match 5 { x: int => {x} y: string => {0} }", "match 5 { x: string => {0} }", "match 5 { => {0} }", "match 5 { }", "match 5 { 5 => 1 }", "match 5 { 5 => {1} 5 => {2} }",
         "match (1, 2) { (1, 2) => {1} => {0} }", "match [1] { [1] => {1} => {0} }", "match 5 { 1.5 => {1} => {0} }", "match 5 { x => {1} }", "match 5 { x: => {1} }",
@@ -195,6 +213,8 @@ def docs(base):
         "x := (1, 2); (a, b) := x; a", "(a, b) := (1, 2, 3); a", "(a) := (1, 2); a", "(a, a) := (1, 2); a", "(a, b) := 5; a", "(a, (b, c)) := (1, (2, 3)); b", "() := (); 1",
         "if true { 1 }", "if true { 1 } else { 2 }", "if true 1 else 2", "if 1 { 1 }", "if true { 1 } else if false { 2 } else { 3 }", "if { 1 }", "if true { 1 } else", "else { 1 }",
         "if x: int = 5 { x } else { 0 }", "if x: string = 5 { x } else { \"\" }", "if x: int = { 1 }", "if x: = 5 { 1 }", "if x: int 5 { 1 }", "if x: ! = 5 { 1 }",
+        "while x: int = 5 { break; }", "while x: string = 5 { }", "while x: int = { }", "while x: = 5 { }", "while x: int 5 { }", "while x: int|string = 5 { break }",
+        "i := mut 0; while x: int = *i { i += 1; if x > 2 { break } }", "while x: ! = 5 { }", "for x in [1]~ { while y: int = x { break } }",
         "while true { break; }", "while false { }", "while 1 { }", "while { }", "while true break", "loop { break; }", "loop break", "loop { continue; }", "loop", "break", "continue",
         "break 5", "return", "return 5", "return return 5", "f := () -> int { return; }; f()", "f := () -> int { }; f()", "f := () -> int { return \"a\"; }; f()",
         "for x in [1, 2]~ { x }", "for x in [1, 2] { x }", "for in [1]~ { }", "for x [1]~ { }", "for x in { }", "for 5 in [1]~ { }", "for x in [1]~ { break; continue; }",
@@ -220,9 +240,11 @@ def run(res, tier, seed, broken_model):
     base = os.path.join(CACHE, "c03-scratch", str(os.getpid()))
     shutil.rmtree(base, ignore_errors=True)
     streams = [("matrix", matrix(rnd, thorough), "c"), ("constants", constants(rnd, thorough), "c"), ("docs", docs(base), "a"),
-               ("tokens", token_sequences(rnd, thorough), "a"), ("text", texts(rnd, seed, thorough), "a")]
+               ("whitespace", None, "a"), ("tokens", token_sequences(rnd, thorough), "a"), ("text", texts(rnd, seed, thorough), "a")]
     total = {}
     for name, progs, which in streams:
+        if progs is None:
+            progs = whitespace(rnd, thorough)          # after `docs` has listed the documented forms
         lines = ["parse3\t%s\t%s" % (which, esc_field(p)) for p in progs]
         out = harness_run(lines, timeout_per_chunk=900)
         total[name] = len(progs)
